@@ -813,6 +813,60 @@ fn c16_pool(tier: Tier, family: usize) -> C16Pool {
                 }
             }
         }
+        // (v) single characters separated by *restrictive* loops (a*, b*, Sigma+): the left-to-right placement of the
+        // rigid parts can fail where the right-to-left one succeeds
+        4 => {
+            let letters: Vec<Arc<P>> = vec![a.clone(), b.clone(), ab.clone()];
+            let gaps: Vec<Option<Arc<P>>> = vec![Some(all.clone()), Some(a2(P::Star(a.clone()))), Some(a2(P::Star(b.clone()))), Some(a2(P::Plus(sig.clone()))), None];
+            let cat = |v: &[Arc<P>]| -> P {
+                let mut it = v.iter().rev();
+                let mut acc: Arc<P> = it.next().unwrap().clone();
+                for x in it {
+                    acc = a2(P::Concat(x.clone(), acc));
+                }
+                (*acc).clone()
+            };
+            // left-hand sides: all sequences of letters up to length 5 (4 in the quick tier)
+            let maxlen = if tier == Tier::Thorough { 5 } else { 4 };
+            let mut cur: Vec<Vec<Arc<P>>> = vec![vec![]];
+            for _ in 0..maxlen {
+                let mut nx = vec![];
+                for s in &cur {
+                    for l in &letters {
+                        let mut t = s.clone();
+                        t.push(l.clone());
+                        progs.push(cat(&t));
+                        nx.push(t);
+                    }
+                }
+                cur = nx;
+            }
+            // right-hand sides: G0 r1 G1 and G0 r1 G1 r2 G2
+            let push_gap = |v: &mut Vec<Arc<P>>, g: &Option<Arc<P>>| {
+                if let Some(g) = g {
+                    v.push(g.clone());
+                }
+            };
+            for g0 in &gaps {
+                for r1 in &letters {
+                    for g1 in &gaps {
+                        let mut v: Vec<Arc<P>> = vec![];
+                        push_gap(&mut v, g0);
+                        v.push(r1.clone());
+                        push_gap(&mut v, g1);
+                        progs.push(cat(&v));
+                        for r2 in &letters {
+                            for g2 in &gaps {
+                                let mut w = v.clone();
+                                w.push(r2.clone());
+                                push_gap(&mut w, g2);
+                                progs.push(cat(&w));
+                            }
+                        }
+                    }
+                }
+            }
+        }
         // (iii) long sequences over 6 elements (rigid/flexible patterns on both sides)
         _ => {
             let elems: Vec<Arc<P>> = vec![a.clone(), all.clone(), b.clone(), sig.clone(), ab.clone(), a2(P::Star(a.clone())), a2(P::Plus(b.clone()))];
@@ -852,7 +906,7 @@ fn c16_pool(tier: Tier, family: usize) -> C16Pool {
 
 pub struct C16Engine;
 const C16_NB: usize = 128;
-const C16_FAMILIES: usize = 4;
+const C16_FAMILIES: usize = 5;
 
 fn c16_pair(pool: &C16Pool, re: &mut ReManager, terms: &[RegLan], i: usize, j: usize, memo: &mut HashMap<(usize, usize), bool>) -> (bool, Option<String>) {
     let claimed = terms[i].included_in(terms[j]);
@@ -906,7 +960,7 @@ impl Engine for C16Engine {
         let sizes: Vec<usize> = (0..C16_FAMILIES).map(|f| c16_pool(ctx.tier, f).progs.len()).collect();
         Meta {
             level: "model_checking",
-            rule: format!("all ordered pairs (r, s) of four term pools ({} sequence terms with boolean combinations, {} level-1 programs, {} long concatenations, {} runs of ranges bracketed by Sigma*): whenever r.included_in(s) is true, L(r) must be a subset of L(s) (product of the canonical reference DFAs, memoised per pair of languages); 'false' is never questioned; union(x, y), union(y, x) and union_list over short/extra terms must denote the union (product BFS of the derivative graph with the union of the reference DFAs); states/transitions count the union products, evaluations the ordered pairs; non-trivial = distinct ordered pairs for which included_in answered true", sizes[0], sizes[1], sizes[2], sizes[3]),
+            rule: format!("all ordered pairs (r, s) of five term pools ({} sequence terms with boolean combinations, {} level-1 programs, {} long concatenations, {} runs of ranges bracketed by Sigma*, {} letter sequences against letters separated by restrictive loops): whenever r.included_in(s) is true, L(r) must be a subset of L(s) (product of the canonical reference DFAs, memoised per pair of languages); 'false' is never questioned; union(x, y), union(y, x) and union_list over short/extra terms must denote the union (product BFS of the derivative graph with the union of the reference DFAs); states/transitions count the union products, evaluations the ordered pairs; non-trivial = distinct ordered pairs for which included_in answered true", sizes[0], sizes[1], sizes[2], sizes[3], sizes[4]),
             assumptions: vec!["inclusion of reference languages is decided on canonical minimal DFAs over the region alphabet".into()],
             exhaustive: true,
             space: "see rule".into(),
